@@ -15,6 +15,9 @@ const Config cfgs[] = {
   {"ram/e2r0/he_s2_0_0", make_ptr<RQ<rc::HE_S<2, 0, 0>, 2, 0>>},
   {"ram/e1r0/qsbr", make_ptr<RQ<rc::QSBR, 1, 0>>},
   {"ram/e2r2/debra0", make_ptr<RQ<rc::DEBRA<0>, 2, 2>>},
+  // node sizes that are not powers of two ("recommended", not required), and a multiple of the internal index step 11
+  {"ram/e3r0/ebr0", make_ptr<RQ<rc::EBR<0>, 3, 0>>},
+  {"ram/e11r1/nebr1", make_ptr<RQ<rc::NEBR<1>, 11, 1>>},
   {"ram/e2r0/backoff_exp2/ebr0", make_ptr<xenium::ramalhete_queue<int*, xenium::policy::reclaimer<rc::EBR<0>>, xenium::policy::entries_per_node<2>, xenium::policy::pop_retries<0>,
                                                                     xenium::policy::backoff<xenium::exponential_backoff<2>>>>},
 };
